@@ -86,7 +86,7 @@ ListTypes == <<L(B("bool")), L(B("int64")), L(B("uint16")), L(B("float64")), L(B
 ImpTypes(imp) == <<Imp(imp, "Color"), Imp(imp, "Pt"), Imp(imp, "Ext"), L(Imp(imp, "Ext")), L(Imp(imp, "Color")), L(Imp(imp, "Pt"))>>
 TypePool(shape) == Force(ScalarTypes \o LocalTypes \o ListTypes \o (IF shape = "none" THEN <<>> ELSE ImpTypes(ImpName(shape))))
 EitherTypes == <<L(TAny), L(TMsg)>>       \* the statement of C14 lets the compiler reject these or generate compiling code
-TagPool == <<"1", "2", "7", "255", "256", "1000", "65535">>
+TagPool == <<"1", "2", "7", "255", "256", "1000", "65535", "3", "5", "10", "300">>
 
 SvcDef(imp) == Service("Svc", FALSE, <<
     Mth("unary", IOFields(<<F("a", B("int32"), "1"), F("type", B("string"), "2")>>, FALSE), NoChan, IOFields(<<F("c", B("int64"), "1")>>, FALSE), FALSE),
